@@ -58,25 +58,32 @@ def _setup(case):
 def strat_theta(tier):
     nmax = 20 if tier == "quick" else 60
     _ex, im = cases.integrator_names()
-    return st.builds(lambda md, me, num, fld, integ, cfl, ns, loc: dict(model=md, mesh=me, num=num, field=fld, integ=integ, cfl=cfl, nsteps=ns, local=loc),
-                     gen.model_convection(), gen.mesh_any(2, nmax), _linear_nums(), _field(), st.sampled_from(im), gen.logf(-2, 2), st.integers(1, 4), st.booleans())
+    # length unit (micrometres to kilometres): with the convection speed it sets the absolute size of dt; dtfac: the step sizes of successive steps on the
+    # SAME solver object differ (theta schemes; gear's BDF2 recurrence is stated for a constant step)
+    unit = st.one_of(st.just(1.0), st.just(1.0), gen.logf(-10, 4))
+    dtfac = st.one_of(st.just([1.0, 1.0, 1.0, 1.0]), st.lists(st.one_of(gen.logf(-1.5, 1.5), gen.f(0.5, 2.0)), min_size=4, max_size=4))
+    return st.builds(lambda md, me, num, fld, integ, cfl, ns, loc, u, df: dict(model=md, mesh=cases.scale_mesh(me, u), num=num, field=fld, integ=integ, cfl=cfl, nsteps=ns, local=loc, unit=u, dtfac=df),
+                     gen.model_convection(), gen.mesh_any(2, nmax), _linear_nums(), _field(), st.sampled_from(im), gen.logf(-2, 2), st.integers(1, 4), st.booleans(), unit, dtfac)
 
 
 def check_theta(case):
     md, model, mesh, disc, n, q0, A, dx = _setup(case)
     name = case["integ"]
     a = abs(md["a"])
-    dtcell = case["cfl"] * dx / a
     local = case["local"] and name != "gear"
-    dt = dtcell if local else float(np.min(dtcell))
-    D = np.diag(dtcell) if local else dt * np.eye(n)
+    dtfac = case.get("dtfac", [1.0] * 4) if name != "gear" else [1.0] * 4
     solver = cases.build_integrator(name, mesh, disc)
     f = cases.build_field(model, mesh, [q0])
     I = np.eye(n)
     qs = [q0.copy()]
     scale = float(np.max(np.abs(q0))) + 1e-300
     worst = 0.0
+    tref = 0.0
     for k in range(case["nsteps"]):
+        cflk = case["cfl"] * dtfac[k]
+        dtcell = cflk * dx / a
+        dt = dtcell if local else float(np.min(dtcell))
+        D = np.diag(dtcell) if local else dt * np.eye(n)
         solver.step(f, dt)
         got = np.asarray(f.data[0], dtype=float)
         require(np.all(np.isfinite(got)), "step-finite", "%s step %d returns non-finite data (cfl=%g)" % (name, k + 1, case["cfl"]))
@@ -94,20 +101,22 @@ def check_theta(case):
         err = float(np.max(np.abs(got - ref))) / scale
         # the finite-difference Jacobian of the linear operator is exact to ~1e-10 relative; the step multiplies that error by dt_i*|a|/dx_j, i.e. by the
         # CFL number times the largest ratio of cell sizes when the time step is per cell
-        tol = 1e-6 + 1e-8 * case["cfl"] * (float(np.max(dx) / np.min(dx)) if local else 1.0)
+        tol = 1e-6 + 1e-8 * cflk * (float(np.max(dx) / np.min(dx)) if local else 1.0)
         require(err <= tol, "linearised-system", "%s step %d (cfl=%g, %s dt, %s, %s mesh, n=%d): result differs from the dense solution of the %s system by %.3g (relative)"
-                % (name, k + 1, case["cfl"], "per-cell" if local else "scalar", case["num"]["name"], case["mesh"]["kind"], n,
+                % (name, k + 1, cflk, "per-cell" if local else "scalar", case["num"]["name"], case["mesh"]["kind"], n,
                    "theta" if name in THETA else ("Crank-Nicolson" if k == 0 else "BDF2"), err))
         worst = max(worst, err)
         # continue the reference trajectory from the reference itself (errors must not accumulate silently)
         qs.append(ref)
-        tref = (k + 1) * float(np.min(dtcell))
+        tref += float(np.min(dtcell))
         require(abs(f.time - tref) <= 1e-12 * tref, "step-time", "%s: time after %d steps is %r, expected %r" % (name, k + 1, f.time, tref))
     target(worst, "theta-step-error")
     rho = float(np.max(np.abs(np.linalg.eigvals(A)))) if n <= 40 else float(np.linalg.norm(A, 1))
     nt = bool(np.max(q0) > np.min(q0) and float(np.min(dtcell)) * rho > 1e-3)
+    varying = len(set(dtfac[:case["nsteps"]])) > 1
     return dict(nontrivial=nt, labels=["integ:" + name, "num:" + case["num"]["name"], "mesh:" + case["mesh"]["kind"], "dt:" + ("local" if local else "scalar"),
-                                       "cfl:" + ("<=1" if case["cfl"] <= 1 else "<=10" if case["cfl"] <= 10 else ">10"), "steps:%d" % case["nsteps"]])
+                                       "cfl:" + ("<=1" if case["cfl"] <= 1 else "<=10" if case["cfl"] <= 10 else ">10"), "steps:%d" % case["nsteps"],
+                                       "dt-varies-between-steps" if varying else "dt-constant", "dt<1e-8" if float(np.min(dtcell)) < 1e-8 else "dt>=1e-8"])
 
 
 # ---------------------------------------------------------------- no growth for Re z <= 0
